@@ -55,7 +55,7 @@ def run(ctx, replay):
         # ---- 2. scenarios: every (state, message) of the bounded model
         scen = []
         for (cs, rs, k, n) in ([(C2, R2, 1, 5), (C2, R2, 2, 5), (C3, R2, 1, 3)] if quick else
-                               [(C2, R2, 1, 8), (C2, R2, 2, 8), (C3, R2, 1, 6), (C3, R3, 2, 4), (C2, R3, 1, 6), (C3, R3, 1, 4)]):
+                               [(C2, R2, 1, 8), (C2, R2, 2, 8), (C3, R2, 1, 6), (C3, R2, 2, 5), (C2, R3, 1, 6), (C2, R3, 2, 5)]):
             hs = ctx.generate(D, "Gen_RoomLock", gen_cfg(cs, rs, k, n), "gen_%d%d%d" % (len(cs), len(rs), k), workers=1, timeout=600 if quick else 3000)
             for h in vlib.drop_prefixes(hs):
                 scen.append({"max": k, "steps": h})
@@ -167,7 +167,7 @@ def run(ctx, replay):
     for t in vlib.split_trace(tp)[:3]:
         ctx.cov["samples"].append({"scenario": by_sid[t["sid"]], "trace": [json.loads(x) for x in t["lines"]]})
     ctx.assumptions += ["one message is handled atomically by the service actor (observed after the actor went back to waiting)",
-                        "bounds: <=3 connections, <=3 rooms, limit 1-2, message sequences up to the generator's MaxLen",
+                        "bounds: 2-3 connections, 2-3 rooms (not 3 and 3 together: 860 000 states at length 4), limit 1-2, message sequences up to the generator's MaxLen",
                         "connection level: a task is kept running by leaving its first query unanswered; the grant a connection receives and the start of its task are one step"]
     return ctx.finish("model_checking",
                       "scenarios = message sequences reaching every (service state, last message) of the bounded RoomLock model "
